@@ -406,6 +406,10 @@ def build_family(tier, seed):
         for k in range(60 if not thorough else 600):
             tl = [(None, list(rng.choice(ss))) for _ in range(rng.choice((2, 3)))]
             el.append(dict(bases=bs, terms=tl))
+        # the empty operator string (a constant shift: <0|0> = 1 on the diagonal), alone and inside sums
+        el.append(dict(bases=bs, terms=[(None, [])]))
+        for k in range(6):
+            el.append(dict(bases=bs, terms=[(None, list(rng.choice(ss))), (None, [])] + ([(None, list(rng.choice(ss)))] if k % 2 else [])))
     if thorough:
         for bs in base_sets[:3]:
             modes = sorted({m for b in bs for st in b for m in st})
@@ -457,7 +461,7 @@ def build_family(tier, seed):
                 pairs += [[(m, True), (m2, False)] for m in grp for m2 in grp if m != m2]
             if sym == "Z2Z2":
                 pairs += [[(m, True), (m2, True)] for grp in (ups, downs) for m in grp for m2 in grp if m < m2]
-        ops_list = [p for p in pairs] + [p + q for p in pairs[:3] for q in pairs[:3]]
+        ops_list = [p for p in pairs] + [p + q for p in pairs[:3] for q in pairs[:3]] + [[]]
         if sym == "Z2":
             ops_list += [[(m, True), (m2, True)] for m in modes for m2 in modes if m != m2][:4] + [[(m, False), (m2, False)] for m in modes for m2 in modes if m != m2][:2]
         charges = sorted({gs.combine(sym, list(sec)) for sec in itertools.product(*[sorted(set(im)) for im in ims])}, key=repr)
@@ -475,13 +479,21 @@ def build_family(tier, seed):
         ("Z2", [[("a",)], [(), ("b",)], [("c",), ()]], [[1], [0, 1], [1, 0]]),
         ("U1", [[(), ("a",)], [("b",), ()], [(), ("c",)]], [[0, 1], [1, 0], [0, 1]]),
         ("U1U1", [[(), ("d",), ("u",), ("u", "d")], [("v", "w"), ("v",), ("w",), ()]], [[(0, 0), (0, 1), (1, 0), (1, 1)], [(1, 1), (1, 0), (0, 1), (0, 0)]]),
+        # orderings whose charge maps interleave the charges (positions of one charge not contiguous, with gaps of width one)
+        ("Z2", [[(), ("d",), ("u", "d"), ("u",)]], [[0, 1, 0, 1]]),
+        ("Z2", [[(), ("d",), ("u", "d")], [(), ("b",)]], [[0, 1, 0], [0, 1]]),
+        ("U1", [[("a",), (), ("b",)]], [[1, 0, 1]]),
+        ("U1", [[(), ("d",), ("u", "d"), ("u",)], [("b",), ()]], [[0, 1, 2, 1], [1, 0]]),
+        ("Z2", [[("u",), (), ("d",), ("u", "d")], [(), ("d2",), ("u2", "d2"), ("u2",)]], [[1, 0, 1, 0], [0, 1, 0, 1]]),
     ]
     for sym, bs, ims in het:
         modes = sorted({m for b in bs for st in b for m in st})
         pairs = [[(m, True), (m2, False)] for m in modes for m2 in modes]
         if sym == "U1U1":
             pairs = [[(m, True), (m, False)] for m in modes] + [[("u", True), ("v", False)], [("v", True), ("u", False)], [("d", True), ("w", False)]]
-        opsl = pairs + [p_ + q_ for p_ in pairs[:3] for q_ in pairs[-3:]]
+        opsl = pairs + [p_ + q_ for p_ in pairs[:3] for q_ in pairs[-3:]] + [[]]  # ([]: the constant term)
+        if sym == "Z2":
+            opsl += [[(m, True), (m2, True)] for m in modes for m2 in modes if m < m2][:3]
         for k in range(12 if not thorough else 80):
             ar_.append(dict(sym=sym, bases=bs, index_maps=ims, terms=[(None, rng.choice(opsl)) for _ in range(rng.choice((1, 2, 3)))],
                             first_literal=(None, 1, 2, 0.5)[k % 4]))
